@@ -300,9 +300,29 @@ def canon_idioms(e: ast.AST) -> ast.AST:
          s.rpartition(x)[2], s.rsplit(x, 1)[-1]   ->  s.split(x)[-1]"""
 
     class T(ast.NodeTransformer):
+        def visit_Compare(self, node):
+            self.generic_visit(node)
+            # s.find(x) >= 0 / != -1 / > -1  ->  x in s ;  s.find(x) < 0 / == -1  ->  x not in s ;  s.count(x) > 0 -> x in s
+            if len(node.ops) == 1 and isinstance(node.left, ast.Call) and isinstance(node.left.func, ast.Attribute) and node.left.func.attr in ("find", "count") and len(node.left.args) == 1 and not node.left.keywords:
+                try:
+                    c = ast.literal_eval(node.comparators[0])
+                except Exception:
+                    return node
+                op = type(node.ops[0])
+                find = node.left.func.attr == "find"
+                pos = (find and ((op is ast.GtE and c == 0) or (op is ast.NotEq and c == -1) or (op is ast.Gt and c == -1))) or (not find and ((op is ast.Gt and c == 0) or (op is ast.GtE and c == 1) or (op is ast.NotEq and c == 0)))
+                neg = (find and ((op is ast.Lt and c == 0) or (op is ast.Eq and c == -1) or (op is ast.LtE and c == -1))) or (not find and ((op is ast.Eq and c == 0) or (op is ast.Lt and c == 1)))
+                if pos or neg:
+                    return ast.fix_missing_locations(ast.copy_location(ast.Compare(left=node.left.args[0], ops=[ast.In() if pos else ast.NotIn()], comparators=[node.left.func.value]), node))
+            return node
+
         def visit_Subscript(self, node):
             self.generic_visit(node)
             v, sl = node.value, node.slice
+            # xs[len(xs) - 1]  ->  xs[-1]
+            if isinstance(sl, ast.BinOp) and isinstance(sl.op, ast.Sub) and isinstance(sl.right, ast.Constant) and isinstance(sl.right.value, int) and sl.right.value >= 1 and isinstance(sl.left, ast.Call) and isinstance(sl.left.func, ast.Name) and sl.left.func.id == "len" and len(sl.left.args) == 1 and _txt(sl.left.args[0]) == _txt(v):
+                node.slice = ast.UnaryOp(op=ast.USub(), operand=ast.Constant(value=sl.right.value))
+                return ast.fix_missing_locations(node)
             if isinstance(v, ast.Call) and isinstance(v.func, ast.Attribute) and isinstance(sl, (ast.Constant, ast.UnaryOp)) and not v.keywords:
                 try:
                     idx = ast.literal_eval(sl)
